@@ -43,6 +43,7 @@ type Recorder struct {
 	seen    map[uint64]bool
 	tools   *pipeline.Tools
 	lastRep string
+	lastRp  *Replay
 }
 
 var (
@@ -171,6 +172,7 @@ func (r *Recorder) Fail(t *rapid.T, rp *Replay, format string, args ...interface
 	r.mu.Lock()
 	r.s.Violation = msg
 	r.s.Replay = name
+	r.lastRp = rp
 	r.mu.Unlock()
 	t.Fatalf("%s", msg)
 }
@@ -198,6 +200,26 @@ func Check(t *testing.T, prop string) {
 		t.Skipf("infrastructure: %s", r.s.Infra)
 		return
 	}
+	// after rapid's own shrinking: reduce the failing case at the level of the IR and
+	// rewrite the replay file (runs before flush; rapid ends the test with Goexit)
+	defer func() {
+		r.mu.Lock()
+		rp, file := r.lastRp, r.s.Replay
+		failed := r.s.Violation != ""
+		r.mu.Unlock()
+		if !failed || rp == nil || file == "" || r.HasInfra() {
+			return
+		}
+		small := reduce(def, r.tools, rp, reduceBudget())
+		if small != rp {
+			b, _ := json.MarshalIndent(small, "", " ")
+			if os.WriteFile(file, b, 0o644) == nil {
+				r.mu.Lock()
+				r.s.Violation = small.Message
+				r.mu.Unlock()
+			}
+		}
+	}()
 	rapid.Check(t, func(rt *rapid.T) {
 		if r.HasInfra() {
 			return // stop exploring; the driver reports exit 2
